@@ -1,6 +1,6 @@
 (* Property C19 - array, axis-view and iterator API invariants.
    Only statements, `exact` of lemmas proved in Proofs/, Print Assumptions, non-vacuity examples. *)
-From Sfs Require Import Index ArrayM IndexP ArrayP.
+From Sfs Require Import Index ArrayM IndexP ArrayP ArraySetP.
 From Coq Require Import ZArith.
 
 (* flat row-major position and multi-index are in bijection *)
@@ -114,3 +114,36 @@ Proof.
   split; [reflexivity|]. split; [repeat constructor|].
   eexists. split; [reflexivity|]. vm_compute. reflexivity.
 Qed.
+
+(* the mutable path (get_mut / IndexMut; [set] = get_mut followed by a write) addresses exactly what the shared path
+   addresses: it answers None exactly when get does, in particular for every index that is out of range on some axis
+   whatever its stride-weighted sum; what is written is read back at that index and every other index reads as before;
+   at the level of the data exactly the row-major position of the index changes *)
+Theorem C19_get_mut_none_iff_get_none : forall (A : Type) (x : arr A) idx v,
+  (exists y, set x idx v = Some y) <-> (exists a, get x idx = Some a).
+Proof. exact set_some_iff_get_some. Qed.
+Print Assumptions C19_get_mut_none_iff_get_none.
+
+Theorem C19_get_mut_out_of_range : forall (A : Type) (x : arr A) idx v, inb (ashape x) idx = false -> set x idx v = None.
+Proof. exact set_out_of_range. Qed.
+Print Assumptions C19_get_mut_out_of_range.
+
+Theorem C19_write_read_back : forall (A : Type) (x y : arr A) idx v, set x idx v = Some y -> get y idx = Some v.
+Proof. exact get_set_same. Qed.
+Print Assumptions C19_write_read_back.
+
+Theorem C19_write_frame : forall (A : Type) (x y : arr A) idx idx' v, set x idx v = Some y -> idx' <> idx -> get y idx' = get x idx'.
+Proof. exact get_set_other. Qed.
+Print Assumptions C19_write_frame.
+
+Theorem C19_write_changes_one_position : forall (A : Type) (x y : arr A) idx v,
+  wf x -> set x idx v = Some y ->
+  inb (ashape x) idx = true /\ nth_error (adata y) (flat (ashape x) idx) = Some v /\
+  forall i, i <> flat (ashape x) idx -> nth_error (adata y) i = nth_error (adata x) i.
+Proof. exact set_changes_one_position. Qed.
+Print Assumptions C19_write_changes_one_position.
+
+Theorem C19_write_keeps_wf : forall (A : Type) (x y : arr A) idx v, wf x -> set x idx v = Some y -> wf y.
+Proof. exact set_wf. Qed.
+Print Assumptions C19_write_keeps_wf.
+
